@@ -36,6 +36,10 @@ CLAIMED = {
     text="(1) For each program the machines compiled under the reference options and under sampled representation-option sets (string storage modes, u8 strings, hook placement, user pointer, packed enums, guards, pointer mode, zero-length support, unsafe indexing, range-collapse thresholds) must carry a strict bisimulation certificate (Bisim.dfa_equiv_cert: equal behaviour on all inputs under every data semantics). (2) The gcc-built binaries of the same program under those option sets are run on the same chunked inputs (incl. bytes adjacent to range ends) and must produce identical result codes, output contents/lengths/terminators and hook calls with snapshots.",
     note="Relational property: the C-level part is differential by nature (sampled inputs, programs, option sets). Trusted: gcc, exporter, driver generator. Allocation failure is out of scope.",
     ref="5 C12"),
+ "C17": dict(cat="proof", tech="Coq proofs over the abstract machine + per-machine certificate + end-of-input sweep of the gcc-built parser",
+    text="Theorems (Props/C17.v): what a data byte selects is independent of End marks (`end` never matches data); in machines carrying the computed certificate end_safe, end-of-input never selects a consuming data transition (wildcards and inverted sets never match end-of-input); end() with nothing to do returns DONE iff the state is accepting, FAIL otherwise; end() after a failure returns FAIL. Every compiled machine is certified; with -feof-support the end-of-input move of EVERY state of the gcc-built parser is compared with the model under several data contexts, plus runs that finish with end() (also after truncated inputs).",
+    note="That the machine is the right one for the program's `end` patterns belongs to C01's reference semantics; C17 decides End/data separation and the contract of the emitted end(). Sampled programs; exhaustive over states for the end move.",
+    ref="5 C17"),
  "C15": dict(cat="proof", tech="Coq proof over translator-regenerated model (pylite2coq) + CPython correspondence",
     text="Universal theorems (all strings, all digit strings, all 256 bytes) about the CURRENT bodies of _convert_string, _convert_char_const, _convert_int, _create_casei_from and _escape_string, which a fail-closed translator regenerates from /repo/nmfu.py into Gallina on every run; the translated reading is compared with CPython on ~2 700 enumerated inputs per run. A broken proof triggers a search (spec evaluated against the regenerated functions inside Coq, then Python/gcc replay) for a concrete literal.",
     note="Trusted: Coq kernel (vm_compute), translator/pylite2coq.py, Base/PyLite.v's reading of Python, Lit/LitSpec.v (spelling relation, C string-literal lexer). _convert_binary_string is tied by correspondence only; lark tokenisation and gcc are modelled, not verified.",
